@@ -161,6 +161,9 @@ func (m *MuxBroker) Run() {
 		select {
 		case p.ch <- stream:
 		default:
+			// There is already a connection pending for this ID; close
+			// this one so that its dialer is not left waiting for an ack.
+			stream.Close()
 		}
 
 		// Wait for a timeout
